@@ -230,11 +230,12 @@ func (s *sentinelProvider) ForNamespace(n string) (protocol.Client, error) {
 
 // didModel is the reference state of one DID.
 type didModel struct {
-	suffix      string
-	accepted    []*Action // accepted operations in submission (= anchoring) order
-	anchoredN   int       // how many of them are anchored
-	longForm    string
-	createReply map[string]interface{}
+	unresolvable bool // hit the known finding "key type over a foreign JWK" (see compareAll)
+	suffix       string
+	accepted     []*Action // accepted operations in submission (= anchoring) order
+	anchoredN    int       // how many of them are anchored
+	longForm     string
+	createReply  map[string]interface{}
 }
 
 type pipeline struct {
@@ -596,6 +597,9 @@ func (p *pipeline) compareAll() (string, string) {
 	sort.Ints(idx)
 	for _, i := range idx {
 		d := p.dids[i]
+		if d.unresolvable {
+			continue
+		}
 		n := d.anchoredN
 		unpubN := 0
 		if p.c.Unpublished {
@@ -622,6 +626,11 @@ func (p *pipeline) compareAll() (string, string) {
 			return "C20/panic", "ResolveDocument panicked: " + pn
 		}
 		if err != nil {
+			if strings.Contains(err.Error(), "failed to transform public keys for did document") {
+				// known finding (known-findings.json): an accepted operation carried an Ed25519 verification key type over a JWK
+				// that is no Ed25519 key; this DID is not compared any further
+				d.unresolvable = true
+			}
 			return "C20/resolution", fmt.Sprintf("DID %d (%s) with %d anchored and %d unpublished accepted operations does not resolve: %v", i, did, d.anchoredN, unpubN, err)
 		}
 		if rr == nil || rr.Document == nil {
@@ -716,6 +725,14 @@ type clientDID struct {
 	n        int
 }
 
+// sigOf gives failures that belong to a recorded known finding their own signature.
+func sigOf(kind, msg string) string {
+	if kind == "C20/resolution" && strings.Contains(msg, "failed to transform public keys for did document") {
+		return "C20/resolution/ed25519-key-type-over-foreign-jwk"
+	}
+	return kind
+}
+
 func TestPipeline(t *testing.T) {
 	ev.Rule(chk, "rapid workloads over the whole pipeline made of real parts ((REST operations endpoint ->) DocumentHandler -> batch.Writer driven through the verif hook -> OperationHandler -> in-memory CAS -> recording ledger assigning time, non-monotone number, canonical and equivalent references -> Observer -> TxnProcessor -> operation store -> OperationProcessor -> didtransformer): 1-5 DIDs, 3-25 client operations (create / update / recover / deactivate with patch lists over all eight actions, all key types), drawn flush points (monitor / timeout ticks), maxOperationCount 1-4, operations submitted while an earlier one for the DID is still queued, signed anchoring windows (open, closed, and ending 0-3 ledger ticks after submission so that the flush point decides whether the operation lands inside, exactly at the end of or after its window), one or two protocol versions (second one with sha2-512 first, fewer patch actions, later genesis time), with and without an unpublished-operation store, with and without two method contexts on the transformers, one node in three with a label / domain for interim DIDs and / or an alias namespace (resolutions then ask by turns for the plain DID, the DID under the alias and - long-form only - the DID with the label as hint; the DID string of an answer may be any spelling that names the suffix under the namespace or alias); every result the node hands out stays held (last 16) and must not change while later requests are served; oracle: every stored operation carries the protocol version that was in force when it was accepted; after every flush and at the end every DID resolves (ResolveDocument) to the kit/refdoc + reference prediction over its accepted operations in anchoring order (document projection, commitments, deactivated, published flag and canonical id once anchored); create response == long-form resolution before anchoring == short-form resolution after anchoring (modulo the DID string); non-trivial = a DID with >= 3 applied operations including a recover or deactivate, or an operation submitted while another is queued, or a version switch")
 	ev.Rapid(t, chk, 200, 1500, func(t *rapid.T) {
@@ -734,7 +751,7 @@ func TestPipeline(t *testing.T) {
 		fail := func(kind, msg string) {
 			if kind != "" {
 				ev.Record(chk, true, ev.Hash(c), "failed")
-				ev.Fail(t, chk, kind, kind, c, "%s", msg)
+				ev.Fail(t, chk, kind, sigOf(kind, msg), c, "%s", msg)
 			}
 			if msg != "" && kind == "" {
 				t.Skip(msg)
@@ -796,6 +813,13 @@ func TestPipeline(t *testing.T) {
 				case "update":
 					next := keys.Get(kt, fmt.Sprintf("c20-%d", di), 10+cl.n)
 					a.Patches = gen.ValidPatches(t, 3, gen.PatchOpts{Actions: []string{"add-public-keys", "remove-public-keys", "add-services", "remove-services", "add-also-known-as", "remove-also-known-as", "ietf-json-patch"}})
+					if rapid.IntRange(0, 11).Draw(t, "keyMaterialMismatch") == 0 {
+						// a key whose type demands other key material than its JWK holds: the node may refuse the request, but
+						// if it accepts it the DID must stay resolvable
+						a.Patches = append(a.Patches, map[string]interface{}{"action": "add-public-keys", "publicKeys": []interface{}{map[string]interface{}{"id": "odd", "type": rapid.SampledFrom([]string{"Ed25519VerificationKey2018", "Ed25519VerificationKey2020"}).Draw(t, "edType"), "purposes": []interface{}{"authentication"},
+							"publicKeyJwk": rapid.SampledFrom([]interface{}{map[string]interface{}{"kty": "EC", "crv": "P-256", "x": "urgvYcEe6u3JFGEdiXafvK8jwdJB52aOHBVQef3MFOk", "y": "UUJv4kE49CaRoSvgi9QI7V5J1pSqIUKWGoyPHEZ400s"}, map[string]interface{}{"kty": "OKP", "crv": "Ed25519", "x": "AAAA"}}).Draw(t, "foreignJwk")}}})
+						p.feat["key-material-mismatch-submitted"] = true
+					}
 					a.NextUpdate = asm.Commit(next, cl.code)
 					s.RevealKey, s.Delta = cl.upd, asm.Delta(a.NextUpdate, a.Patches)
 					a.Consumes = asm.Commit(cl.upd, cl.code)
